@@ -250,7 +250,9 @@ def explore(build, check, prop, cfg_label, bound=1, max_exec=None, loop_cap=200,
             for _ in range(2):
                 ex2 = run_tuner(build, Chooser([p[2] for p in ex.points]), loop_cap)
                 clean_scratch()
-                if log_digest(ex2.log) != d0:
+                if log_digest(ex2.log) != d0 and not vs:
+                    # (when the execution already violates the property the divergence is most likely a symptom
+                    # of the same defect - e.g. real-time stamps leaking into delivered results - so report that)
                     raise RuntimeError(f"harness nondeterminism: replay of the same choices diverged ({cfg_label})")
         choices = [p[2] for p in ex.points]
         ndev = sum(1 for c in prefix if c != 0)
